@@ -140,9 +140,8 @@ func newV2(prefix string, ct *Controllers) (cg Cgroup, err error) {
 	v2 := &V2{
 		path:    filepath.Join(basePath, prefix),
 		control: ct,
-	}
-	if _, err := os.Stat(v2.path); err == nil {
-		v2.existing = true
+		// until the Mkdir of the last path element succeeds, the cgroup is not ours
+		existing: true,
 	}
 	defer func() {
 		if err != nil && !v2.existing {
@@ -157,14 +156,18 @@ func newV2(prefix string, ct *Controllers) (cg Cgroup, err error) {
 	// start from base dir
 	entries := strings.Split(prefix, "/")
 	current := ""
-	for _, e := range entries {
+	for i, e := range entries {
 		parent := current
 		current = current + "/" + e
 		// try mkdir if not exists
 		if _, err := os.Stat(filepath.Join(basePath, current)); os.IsNotExist(err) {
 			verifPoint("cgroup.newv2.stat-mkdir")
-			if err := os.Mkdir(filepath.Join(basePath, current), dirPerm); err != nil {
+			err := os.Mkdir(filepath.Join(basePath, current), dirPerm)
+			if err != nil && !os.IsExist(err) { // created concurrently: open it
 				return nil, err
+			}
+			if err == nil && i == len(entries)-1 {
+				v2.existing = false
 			}
 		} else if err != nil {
 			return nil, err
